@@ -40,7 +40,7 @@ pub fn gen_url(r: &mut Rng) -> String {
         4 => host = format!("Sub.{}", host),
         _ => {}
     }
-    let mut u = format!("{}://{}/{}", scheme, host, r.pick(&["", "p", "p/q.html", "utm", "P/Q"]));
+    let mut u = format!("{}://{}/{}", scheme, host, r.pick(&["", "p", "p/q.html", "utm", "P/Q", "out%20link", "out", "p%2Fq", "out/p"]));
     if r.pct(15) {
         // no path at all: the query follows the host directly
         u = format!("{}://{}", scheme, host);
@@ -89,7 +89,11 @@ pub fn gen_url(r: &mut Rng) -> String {
 fn gen_rule(r: &mut Rng) -> String {
     // (names are ASCII letters, digits, `_`, `-`; anything else makes the rule an error, digits of other scripts included)
     let name = r.pick(&["utm", "utm_source", "a", "b", "fbclid", "k", "Utm", "a-b", "k_1", "utm", "a", "k", "id\u{ff12}", "k\u{663}", "\u{e9}t\u{e9}", "a.b", "a b", "k=1"]);
-    let pat = match r.below(7) {
+    let pat = match r.below(9) {
+        // a word followed by a separator: `%` (as in `/out%20link`) is not one, and the rule is found under another
+        // token when two rules share the word
+        7 => format!("||{}/out^", r.pick(HOSTS)),
+        8 => r.pick(&["/out^", "/p^", "||*out^*p"]).to_string(),
         0 | 1 => "*".to_string(),
         2 => format!("||{}^", r.pick(HOSTS)),
         3 => "/p".to_string(),
@@ -183,6 +187,16 @@ pub fn run(seed: u64, n: usize, out: &mut Out) {
             let mut important = false;
             for pr in rules.iter_mut() {
                 let m = pr.matches(&req);
+                // whether a rule applies to the request is the crate's answer: the model answers the same question itself
+                if url.is_ascii() && pr.line.is_ascii() {
+                    if let Some(q) = make_req(&url, &src, ty) {
+                        let op = format!("m1\t{}\t{}", dump_rule(&pr.f, rx_hint(&pr.f, &req)), q.dump);
+                        if !out.seen_lines.contains(&op) {
+                            out.seen_lines.insert(op.clone());
+                            out.case(&op, if m { "1" } else { "0" }, json!({"rule": pr.line, "url": url, "source": src, "type": ty, "rule_applies": m}), m);
+                        }
+                    }
+                }
                 if !m {
                     continue;
                 }
